@@ -194,6 +194,15 @@ func run(c *core.Ctx) {
 			// ground truth caps the expectation: an endorsement whose payload was rewritten under a re-used signature is
 			// not authentic, so wherever it is the endorsement in use the call must be rejected, whatever this process has
 			// validated before (the "isolated" evaluation above runs in a process that may already hold such state)
+			// likewise a report whose measurement no endorsement in use lists is rejected under every configuration
+			// (with or without a named VMSA count, whichever way the endorsement arrives)
+			if in.kind == "unendorsed" || in.kind == "short" || in.kind == "unpublished" {
+				if expect[in.id] {
+					c.Violate(core.Violation{Kind: "oracle", Entry: "validator/" + cf.validators, Site: "unendorsed-report-accepted", Gen: gname, Case: h,
+						Detail: fmt.Sprintf("a fresh validator accepted a report with %s measurement %x, which the endorsement in use does not list", in.kind, in.m)})
+				}
+				expect[in.id] = false
+			}
 			if in.kind == "forged-reusing-genuine-signature" && cf.source == "arg" {
 				if expect[in.id] {
 					c.Violate(core.Violation{Kind: "oracle", Entry: "validator/" + cf.validators, Site: "forged-endorsement-accepted-after-earlier-validations", Gen: gname, Case: h,
